@@ -277,3 +277,126 @@ func (server *SugarDB) VerifMemUsed() int64 {
 	defer server.storeLock.RUnlock()
 	return server.memUsed
 }
+
+// VerifPreset stores a value directly, the way the suite's presetKeyData does: setValues, then
+// setExpiry when a deadline (unix ms, 0 = none) is given.
+func (server *SugarDB) VerifPreset(database int, key string, value interface{}, deadlineMs int64) error {
+	ctx := context.WithValue(context.Background(), "Database", database)
+	if err := server.setValues(ctx, map[string]interface{}{key: value}); err != nil {
+		return err
+	}
+	if deadlineMs != 0 {
+		server.setExpiry(ctx, key, time.UnixMilli(deadlineMs), false)
+	}
+	return nil
+}
+
+func verifUnhex(s string) (string, error) {
+	b, err := hex.DecodeString(s)
+	return string(b), err
+}
+
+func verifParseRat(s string) (float64, error) {
+	switch s {
+	case "inf":
+		return math.Inf(1), nil
+	case "-inf":
+		return math.Inf(-1), nil
+	}
+	r, ok := new(big.Rat).SetString(s)
+	if !ok {
+		return 0, fmt.Errorf("bad rational %q", s)
+	}
+	f, _ := r.Float64()
+	return f, nil
+}
+
+func verifParseScalar(s string) (interface{}, error) {
+	if s == "" {
+		return nil, fmt.Errorf("empty scalar")
+	}
+	switch s[0] {
+	case 's':
+		return verifUnhex(s[1:])
+	case 'i':
+		var n int
+		_, err := fmt.Sscanf(s[1:], "%d", &n)
+		return n, err
+	case 'f':
+		return verifParseRat(s[1:])
+	}
+	return nil, fmt.Errorf("bad scalar %q", s)
+}
+
+func verifSplit(body string) []string {
+	if body == "" {
+		return nil
+	}
+	return strings.Split(body, ",")
+}
+
+// VerifParseValue parses the canonical rendering produced by VerifValue.
+func VerifParseValue(s string) (interface{}, error) {
+	if len(s) >= 3 && (s[1] == '[' || s[1] == '{') {
+		body := s[2 : len(s)-1]
+		switch s[0] {
+		case 'l':
+			out := []string{}
+			for _, h := range verifSplit(body) {
+				e, err := verifUnhex(h)
+				if err != nil {
+					return nil, err
+				}
+				out = append(out, e)
+			}
+			return out, nil
+		case 'h':
+			out := map[string]interface{}{}
+			for _, p := range verifSplit(body) {
+				kv := strings.SplitN(p, ":", 2)
+				if len(kv) != 2 {
+					return nil, fmt.Errorf("bad pair %q", p)
+				}
+				k, err := verifUnhex(kv[0])
+				if err != nil {
+					return nil, err
+				}
+				v, err := verifParseScalar(kv[1])
+				if err != nil {
+					return nil, err
+				}
+				out[k] = v
+			}
+			return out, nil
+		case 'S':
+			var members []string
+			for _, h := range verifSplit(body) {
+				e, err := verifUnhex(h)
+				if err != nil {
+					return nil, err
+				}
+				members = append(members, e)
+			}
+			return set.NewSet(members), nil
+		case 'z':
+			var members []sorted_set.MemberParam
+			for _, p := range verifSplit(body) {
+				kv := strings.SplitN(p, ":", 2)
+				if len(kv) != 2 {
+					return nil, fmt.Errorf("bad pair %q", p)
+				}
+				k, err := verifUnhex(kv[0])
+				if err != nil {
+					return nil, err
+				}
+				f, err := verifParseRat(kv[1])
+				if err != nil {
+					return nil, err
+				}
+				members = append(members, sorted_set.MemberParam{Value: sorted_set.Value(k), Score: sorted_set.Score(f)})
+			}
+			return sorted_set.NewSortedSet(members), nil
+		}
+	}
+	return verifParseScalar(s)
+}
